@@ -145,6 +145,10 @@ impl World {
     }
     fn observe(&mut self, acct: ComponentAddress) -> Obs {
         let reader = SystemDatabaseReader::new(self.ledger.substate_db());
+        if reader.get_type_info(acct.as_node_id()).is_err() {
+            // a preallocated account that has not been created yet: the blueprint defaults
+            return Obs { default: DefaultRule::Accept, prefs: vec![], auth: vec![], vaults: vec![] };
+        }
         let rule = reader
             .read_typed_object_field::<AccountDepositRuleFieldPayload>(acct.as_node_id(), ModuleId::Main, AccountField::DepositRule.field_index())
             .unwrap()
@@ -394,6 +398,20 @@ fn op_coq(o: &Op) -> String {
         Op::RemoveAuth(b) => format!("(ORemoveAuth {})", b),
     }
 }
+fn wop_coq(o: &Op) -> String {
+    match o {
+        Op::Try(v, b, named, proofs) => format!(
+            "(WTry 0 1 {} {} (mkctx {} {}))",
+            variant_coq(*v),
+            buckets_coq(b),
+            coq_option(named.map(|x| x.to_string())),
+            coq_list(satisfied(proofs).iter().map(|x| x.to_string()))
+        ),
+        Op::Deposit(b) => format!("(WDeposit 0 1 {})", buckets_coq(b)),
+        Op::Withdraw(r, a) => format!("(WWithdraw 1 {} {} 0)", r, coq_z(*a)),
+        other => format!("(WConfig 1 {})", op_coq(other)),
+    }
+}
 fn obs_coq(o: &Obs) -> String {
     format!(
         "(mkacct {} {} {} {})",
@@ -493,32 +511,45 @@ struct Case {
     steps: Vec<(Op, Out, Obs)>,
     dep_before: Vec<Vec<i64>>, // depositor balances before each step and after the last
     bystander_fails: Vec<String>,
+    by_obs: Vec<Obs>, // the bystander before the first step and after every step
+    kind: u8,
 }
 
-fn run_case(w: &mut World, rng: &mut Rng, len: usize, matrix: Option<usize>, script: Option<(bool, Vec<Op>)>) -> Case {
+fn run_case(w: &mut World, rng: &mut Rng, len: usize, matrix: Option<usize>, script: Option<(u8, Vec<Op>)>) -> Case {
     // two out of three random cases start from an account WITHOUT an XRD vault (an account created by
     // `new_account` is funded from the faucet, which would hide the XRD clause of AllowExisting)
-    let no_xrd_vault = match &script {
-        Some((nv, _)) => *nv,
-        None => matrix.is_none() && !rng.chance(1, 3),
+    // account kinds: 0 = funded from the faucet (XRD vault), 1 = created without any vault,
+    // 2 = preallocated (virtual) and not created yet: its first call creates it
+    let kind: u8 = match &script {
+        Some((k, _)) => *k,
+        None if matrix.is_some() => 0,
+        None => rng.below(3) as u8,
     };
-    let (pk, acct) = if no_xrd_vault {
-        let (pk, _) = w.ledger.new_key_pair();
-        let manifest = ManifestBuilder::new()
-            .lock_fee_from_faucet()
-            .new_account_advanced(OwnerRole::Fixed(rule!(require(signature(pk)))), None)
-            .build();
-        let receipt = w.ledger.execute_manifest(manifest, vec![]);
-        (pk, receipt.expect_commit(true).new_component_addresses()[0])
-    } else {
-        let (pk, _, acct) = w.ledger.new_account(false);
-        (pk, acct)
+    let (pk, acct) = match kind {
+        1 => {
+            let (pk, _) = w.ledger.new_key_pair();
+            let manifest = ManifestBuilder::new()
+                .lock_fee_from_faucet()
+                .new_account_advanced(OwnerRole::Fixed(rule!(require(signature(pk)))), None)
+                .build();
+            let receipt = w.ledger.execute_manifest(manifest, vec![]);
+            (pk, receipt.expect_commit(true).new_component_addresses()[0])
+        }
+        2 => {
+            let (pk, _) = w.ledger.new_key_pair();
+            (pk, ComponentAddress::preallocated_account_from_public_key(&pk))
+        }
+        _ => {
+            let (pk, _, acct) = w.ledger.new_account(false);
+            (pk, acct)
+        }
     };
     let init = w.observe(acct);
     let mut obs = init.clone();
     let mut steps = Vec::new();
     let mut dep_before = vec![w.dep_balances()];
     let mut bystander_fails: Vec<String> = Vec::new();
+    let mut by_obs: Vec<Obs> = vec![w.observe(w.bystander)];
     // matrix cases: a fixed configuration prefix chosen by the matrix index, then deposits of every variant
     let mut ops: Vec<Op> = Vec::new();
     if let Some(m) = matrix {
@@ -549,6 +580,7 @@ fn run_case(w: &mut World, rng: &mut Rng, len: usize, matrix: Option<usize>, scr
         obs = w.observe(acct);
         dep_before.push(w.dep_balances());
         let by = w.observe(w.bystander);
+        by_obs.push(by.clone());
         if Some(&by) != w.bystander_init.as_ref() {
             bystander_fails.push(format!("step {}: a bystander account changed: {:?} (after {:?})", k, by, op));
         }
@@ -560,7 +592,7 @@ fn run_case(w: &mut World, rng: &mut Rng, len: usize, matrix: Option<usize>, scr
             let _ = w.run_op(acct, pk, &Op::Withdraw(NF, *n));
         }
     }
-    Case { v2: w.v2, init, steps, dep_before, bystander_fails }
+    Case { v2: w.v2, init, steps, dep_before, bystander_fails, by_obs, kind }
 }
 
 // ---------------- direct oracle ----------------
@@ -632,7 +664,7 @@ fn oracle(c: &Case) -> Vec<String> {
 }
 
 /// Deterministic boundary family (identical for every seed); (name, account without XRD vault?, ops)
-fn boundary_scripts() -> Vec<(&'static str, bool, Vec<Op>)> {
+fn boundary_scripts() -> Vec<(&'static str, u8, Vec<Op>)> {
     use DefaultRule::*;
     use Variant::*;
     let t = |v: Variant, b: Vec<(usize, i64)>, named: Option<usize>, proofs: Vec<usize>| Op::Try(v, b, named, proofs);
@@ -641,7 +673,7 @@ fn boundary_scripts() -> Vec<(&'static str, bool, Vec<Op>)> {
     // bucket), empty buckets of unknown resources, fungible and non-fungible
     out.push((
         "allow_existing_empty_vault",
-        true,
+        1,
         vec![
             Op::SetDefault(AllowExisting),
             t(SingleRefund, vec![(1, 3)], None, vec![]),
@@ -664,7 +696,7 @@ fn boundary_scripts() -> Vec<(&'static str, bool, Vec<Op>)> {
     // the authorized-depositor badge by resource and by non-fungible id
     out.push((
         "badge_kinds",
-        false,
+        0,
         vec![
             Op::SetDefault(Reject),
             Op::AddAuth(1),
@@ -718,11 +750,11 @@ fn boundary_scripts() -> Vec<(&'static str, bool, Vec<Op>)> {
         ops.push(t(v, vec![(1, 1)], Some(2), vec![]));
         ops.push(t(v, vec![(1, 1)], Some(2), vec![2]));
     }
-    out.push(("batch_positions", false, ops));
+    out.push(("batch_positions", 0, ops));
     // preferences against each default rule: set, overwrite, remove, remove again
     out.push((
         "preferences",
-        false,
+        0,
         vec![
             Op::SetDefault(Reject),
             t(SingleRefund, vec![(1, 1)], None, vec![]),
@@ -753,7 +785,7 @@ fn boundary_scripts() -> Vec<(&'static str, bool, Vec<Op>)> {
     // owner withdrawals at the balance: balance + 1, exactly, from an empty vault, without a vault, zero
     out.push((
         "withdraw_limits",
-        true,
+        1,
         vec![
             Op::Deposit(vec![(1, 5), (NF, 2)]),
             Op::Withdraw(1, 6),
@@ -765,6 +797,41 @@ fn boundary_scripts() -> Vec<(&'static str, bool, Vec<Op>)> {
             Op::Withdraw(NF, 3),
             Op::Withdraw(NF, 2),
             Op::Withdraw(0, 1),
+        ],
+    ));
+    // preallocated accounts: a failing first call leaves the account non-existent; the first deposit or
+    // the first owner call creates it with the defaults; then the AllowExisting family on it
+    let mut v = vec![
+        Op::Withdraw(1, 1),
+        Op::Withdraw(0, 0),
+        t(SingleAbort, vec![(1, 3)], None, vec![]),
+        Op::SetDefault(Reject),
+        t(SingleRefund, vec![(1, 1)], None, vec![]),
+        t(BatchAbort, vec![(NF, 1), (1, 1)], None, vec![]),
+        Op::SetDefault(Accept),
+        t(BatchRefund, vec![(NF, 2), (1, 1), (NF, 1)], None, vec![]),
+    ];
+    out.push(("virtual_first_deposit", 2, v.clone()));
+    v.remove(2);
+    v.remove(0);
+    out.push(("virtual_first_owner_call", 2, v));
+    let ae = out[0].2.clone();
+    out.push(("virtual_allow_existing", 2, ae));
+    // non-fungible buckets in batches (refund and abort), with duplicates of the non-fungible resource
+    out.push((
+        "nf_batches",
+        0,
+        vec![
+            Op::SetDefault(Accept),
+            Op::SetPref(NF, Pref::Disallowed),
+            t(BatchRefund, vec![(NF, 1), (1, 1), (NF, 2)], None, vec![]),
+            t(BatchAbort, vec![(1, 1), (NF, 1)], None, vec![]),
+            t(SingleRefund, vec![(NF, 1)], None, vec![]),
+            Op::AddAuth(1),
+            t(BatchRefund, vec![(NF, 1), (NF, 1)], Some(1), vec![1]),
+            Op::RemovePref(NF),
+            t(BatchAbort, vec![(NF, 1), (NF, 0), (NF, 2)], None, vec![]),
+            Op::Withdraw(NF, 2),
         ],
     ));
     out
@@ -843,12 +910,26 @@ fn main() {
         if i < 2 {
             report.sample(json!({"v2": case.v2, "steps": case.steps.iter().take(10).map(|(o, out, _)| format!("{} => {}", op_coq(o), out_coq(out))).collect::<Vec<_>>()}));
         }
+        let dep_v = |k: usize| buckets_coq(&case.dep_before[k].iter().enumerate().map(|(r, b)| (r, *b)).collect::<Vec<_>>());
         cw.push(format!(
-            "(mkcase {} {} {})",
+            "(mkcase {} {} {} {} {})",
             coq_bool(case.v2),
+            dep_v(0),
             obs_coq(&case.init),
-            coq_list(case.steps.iter().map(|(o, out, obs)| format!("({}, {}, {})", op_coq(o), out_coq(out), obs_coq(obs))))
+            obs_coq(&case.by_obs[0]),
+            coq_list(case.steps.iter().enumerate().map(|(k, (o, out, obs))| format!(
+                "({}, {}, {}, {}, {})",
+                wop_coq(o),
+                out_coq(out),
+                dep_v(k + 1),
+                obs_coq(obs),
+                obs_coq(&case.by_obs[k + 1])
+            )))
         ));
+        report.count(&format!("account_kind.{}", case.kind));
+    }
+    for k in 0..3 {
+        report.floor(&format!("account_kind.{}", k), 4);
     }
     report.floor("bf.matrix", 36);
     for (name, ..) in &bf {
